@@ -356,6 +356,12 @@ def run_ops(case, ctx, m, r, plan, real):
             # too many losses: documented failure; memory inside the range
             # is unspecified, everything else was checked above
             ctx.count("timeouts")
+            if real:
+                # wall-clock trouble (a starved server thread): the command
+                # may still be executed later, so nothing after this point
+                # can be judged - stop, never a verdict
+                ctx.count("real_socket_case_abandoned")
+                break
             continue
         if target is not None:
             chip = m.chips[target[0]]
